@@ -8548,7 +8548,8 @@ def aten_repeat_interleave_Tensor(
 def aten_reshape(self: TTensor, shape: Sequence[INT64]) -> TTensor:
     """reshape(Tensor(a) self, SymInt[] shape) -> Tensor(a)"""
     shape = common_ops.merge_dims(shape)
-    return op.Reshape(self, shape)
+    # allowzero: a 0 in `shape` is an extent of 0 (as in PyTorch), not "copy the input dimension"
+    return op.Reshape(self, shape, allowzero=True)
 
 
 def aten_reshape_as(self: TensorType, other: TensorType) -> TensorType:
@@ -10587,7 +10588,8 @@ def aten_view_copy(self: TTensor, size: Sequence[INT64]) -> TTensor:
     """view_copy(Tensor self, SymInt[] size) -> Tensor"""
 
     size = common_ops.merge_dims(size)
-    return op.Reshape(self, size)
+    # allowzero: a 0 in `size` is an extent of 0 (as in PyTorch), not "copy the input dimension"
+    return op.Reshape(self, size, allowzero=True)
 
 
 # Do not register vstack - decomposed by PyTorch: https://github.com/pytorch/pytorch/blob/bedf96d7ffe74b34bcfe52c7ae1ae05f40d6c8ee/torch/_refs/__init__.py#L3918
